@@ -533,8 +533,14 @@ def k2_k3_k6(prog, rep, only=None):
             m = sorted([c for c in p.calls("memcpy")], key=lambda c: c.line)
             lens = [show(norm(c.arg(2))) for c in m]
             be = list(p.calls(enc))
-            okp = lens == ["(56 - r)", "(64 - r)"] and len(be) == 1 and show(norm(be[0].arg(0))) == "&ctx->buf[56]" and show(norm(be[0].arg(1))) == "ctx->count"
-            g = any(op == "<" and show(L) == "r" and R == ("c", 56) for cond, truth in p.edge_conds(m[0]) for op, L, R, _, _ in cond_atoms(cond, truth)) if m else False
+            # the two fills by what they copy, not by where they stand: 56 - r bytes where r < 56, 64 - r bytes where r >= 56
+            okp = sorted(lens) == ["(56 - r)", "(64 - r)"] and len(be) == 1 and show(norm(be[0].arg(0))) == "&ctx->buf[56]" and show(norm(be[0].arg(1))) == "ctx->count"
+            m56 = [c for c in m if show(norm(c.arg(2))) == "(56 - r)"]
+            m64 = [c for c in m if show(norm(c.arg(2))) == "(64 - r)"]
+
+            def under(c, ops):
+                return any((op, R) in ops and show(L) == "r" for cond, truth in p.edge_conds(c) for op, L, R, _, _ in cond_atoms(cond, truth))
+            g = bool(m56) and bool(m64) and under(m56[0], {("<", ("c", 56)), ("<=", ("c", 55))}) and under(m64[0], {(">=", ("c", 56)), (">", ("c", 55))})
             ms = [c for c in p.calls("memset") if norm(c.arg(1)) == ("c", 0) and norm(c.arg(2)) == ("c", 56)]
             tr = list(p.calls("SHA256_Transform"))
             rep.check(okp and g and len(ms) == 1 and len(tr) == 2, "K2-pad", "SHA256_Pad: pad to 56 mod 64 (one extra block when r >= 56), big-endian bit count at offset 56", p.loc, "%s" % lens, function=p.name, construct="pad")
